@@ -224,6 +224,7 @@ func c13Once(c *mon.Ctx) {
 			want []string // nil = must be rejected
 		}{
 			{a + ",," + b, []string{a, b}}, {"," + a, []string{a}}, {a + ",", []string{a}}, {a + ", ," + b, []string{a, b}}, {" , " + a + " ,, " + b + " , ", []string{a, b}},
+			{a + "," + strings.ToLower(a) + "x", nil}, {a + "," + c13OtherCase(a), nil}, {b + ", " + a + " ," + c13OtherCase(b), nil}, {a + "," + a, []string{a, a}},
 			{a + ",,NoSuchSource", nil}, {",,NoSuchSource", nil}, {a + ", ,NoSuchSource," + b, nil}, {"NoSuchSource,," + a, nil}, {a + ",," + b + ",,bogus", nil},
 		} {
 			sl := lint.SourceList{lint.LintSource(b), lint.LintSource(b), lint.LintSource(b)} // earlier content must be replaced
@@ -628,4 +629,19 @@ func c13ProfileHistories(c *mon.Ctx) {
 	}
 	check("after options were stacked from profiles")
 	c.R.Distinct("profiles_checked", "profile histories (registered by the harness)")
+}
+
+// c13OtherCase returns s with the letter case of every letter flipped (a string that is not s, and not a source,
+// but equal to s under case folding).
+func c13OtherCase(s string) string {
+	b := []byte(s)
+	for i, ch := range b {
+		switch {
+		case ch >= 'a' && ch <= 'z':
+			b[i] = ch - 32
+		case ch >= 'A' && ch <= 'Z':
+			b[i] = ch + 32
+		}
+	}
+	return string(b)
 }
